@@ -3,6 +3,7 @@ package pdf_test
 import (
 	"bytes"
 	"fmt"
+	"io"
 	"math"
 	"strings"
 	"testing"
@@ -120,6 +121,29 @@ func c01Check(c *kit.Case, ctx string, opt pdf.OutputOptions, objs []pdf.Object)
 			return text
 		}
 	}
+	// the same text read through the scanner's buffer boundary (1024 bytes) and
+	// from a source that delivers a few bytes at a time
+	if c.Rng.Chance(1, 4) {
+		cut := c.Rng.Intn(len(data) + 1)
+		pad := c01Padding(c.Rng, scannerBuf*(cut/scannerBuf+1+c.Rng.Intn(2))-cut)
+		shifted := append(pad, data...)
+		var src io.Reader = bytes.NewReader(shifted)
+		mode := []int{0, 0, 0, 2, 2, 2, 2, 1}[c.Rng.Intn(8)]
+		if mode > 0 {
+			src = &c01ChunkReader{data: shifted, rng: c.Rng, one: mode == 1}
+		}
+		got2, err := pdf.VerifParseObjectsFrom(src)
+		if wrapped && err == nil && len(got2) == 1 {
+			if arr, ok := got2[0].(pdf.Array); ok {
+				got2 = arr
+			}
+		}
+		c.R.Count("texts_reparsed_across_the_buffer_boundary", 1)
+		if err != nil || c01Canon(got2) != c01Canon(got) {
+			c.Violationf("buffer-boundary/"+ctx, "opt=%s text=%s preceded by %d bytes of white space and comments (buffer boundary after %d bytes of the text, source mode %d)\nread: %s, %v\nalone: %s",
+				c01OptName(opt), kit.Q(data), len(pad), cut, mode, kit.Trunc(c01Canon(got2), 600), err, kit.Trunc(c01Canon(got), 600))
+		}
+	}
 	return text
 }
 
@@ -168,6 +192,45 @@ func c01SigmaCount(maxLen int) int {
 		block *= len(gen.Sigma)
 	}
 	return total
+}
+
+const scannerBuf = 1024 // size of the scanner's buffer (scanner.go: scannerBufSize)
+
+// c01Padding returns n bytes of white space and comments ending in an EOL.
+func c01Padding(rng *kit.Rand, n int) []byte {
+	pad := make([]byte, 0, n)
+	for len(pad) < n-1 {
+		if rng.Chance(1, 8) && n-len(pad) > 12 {
+			pad = append(pad, "% comment\n"...)
+		} else {
+			pad = append(pad, " \n\t\r\x00\f"[rng.Intn(6)])
+		}
+	}
+	for len(pad) < n {
+		pad = append(pad, '\n')
+	}
+	return pad
+}
+
+// c01ChunkReader delivers its data a few bytes per Read call.
+type c01ChunkReader struct {
+	data []byte
+	rng  *kit.Rand
+	one  bool
+}
+
+func (r *c01ChunkReader) Read(p []byte) (int, error) {
+	if len(r.data) == 0 {
+		return 0, io.EOF
+	}
+	n := 1
+	if !r.one {
+		n = 1 + r.rng.Intn(40)
+	}
+	n = min(n, len(p), len(r.data))
+	copy(p, r.data[:n])
+	r.data = r.data[n:]
+	return n, nil
 }
 
 type c01Token struct {
